@@ -203,6 +203,7 @@ def _load_known():
 
 
 KNOWN_FUNCS = _load_known()
+INT_IDENTITIES = False   # set by rules whose terms are array sizes (integers)
 
 
 class VN:
@@ -271,7 +272,32 @@ class VN:
             r = self.name_hook(self, e, st)
             if r is not None:
                 return r
+        c = self._module_constant(e.id)
+        if c is not None:
+            return self.ev_Constant(c, st)
         return self.sym(e.id)
+
+    def _module_constant(self, name):
+        """a module-level name that is bound exactly once, to a literal (`_MODE = "zero"`), reads as that literal"""
+        if self.func is None:
+            return None
+        mod = self.func.mod
+        cache = mod.__dict__.setdefault("_consts", None)
+        if cache is None:
+            cache = {}
+            counts = {}
+            for n in mod.tree.body:
+                if isinstance(n, ast.Assign) and len(n.targets) == 1 and isinstance(n.targets[0], ast.Name):
+                    counts[n.targets[0].id] = counts.get(n.targets[0].id, 0) + 1
+                    if isinstance(n.value, ast.Constant) and not isinstance(n.value.value, (bytes, type(Ellipsis))):
+                        cache[n.targets[0].id] = n.value
+            for n in ast.walk(mod.tree):
+                if isinstance(n, ast.Global):
+                    for g in n.names:
+                        counts[g] = 99
+            cache = {k: v for k, v in cache.items() if counts.get(k) == 1}
+            mod._consts = cache
+        return cache.get(name)
 
     def ev_Attribute(self, e, st):
         k = self.key_of(e)
@@ -403,6 +429,10 @@ class VN:
             fa, fb = a.as_fraction(), b.as_fraction()
             if fa is not None and fb is not None and fb != 0:
                 return T.const(fa // fb)
+            if INT_IDENTITIES and fb == 2:
+                # integer identity (array sizes): (n + 1) // 2 == (n + n % 2) / 2, so "round up to even" has one spelling
+                x = T.sub(a, T.const(1))
+                return T.mul(T.const(Fr(1, 2)), T.add(x, T.app("mod", x, T.const(2), real=True)))
             return T.app("floordiv", a, b, real=True)
         if isinstance(op, ast.Mod):
             fa, fb = a.as_fraction(), b.as_fraction()
@@ -454,6 +484,9 @@ class VN:
         vals = [self._as_term(self.ev(v, st)) for v in e.values]
         is_and = isinstance(e.op, ast.And)
         keep = []
+        # operands the path condition already decides count as the constants they are
+        vals = [TRUE if (isinstance(v, T.Poly) and any(v == k for k in st.conds)) else
+                (FALSE if (isinstance(v, T.Poly) and any(negate(v) == k for k in st.conds)) else v) for v in vals]
         for v in vals:
             if v == (TRUE if is_and else FALSE):
                 continue
@@ -1049,12 +1082,18 @@ class VN:
             return a0
         if short in ("multiply",) and len(args) == 2 and all(isinstance(x, P) for x in args):
             return T.mul(args[0], args[1])
+        if short == "matmul" and len(args) == 2 and all(isinstance(x, P) for x in args) and not kw:
+            return self.binop(ast.MatMult(), args[0], args[1], e)   # np.matmul(a, b) is a @ b
         if short == "negative" and isP:
             return T.neg(a0)
         if short in ("vdot",) and len(args) == 2:
             return T.app("vdot", *args, real=False)
         if short == "norm" and args:
-            return T.app("norm", *[self._as_term(x) for x in args], real=True)
+            pos = [self._as_term(x) for x in args]
+            kw2 = dict(kw)
+            if len(pos) == 1 and "ord" in kw2:
+                pos.append(self._as_term(kw2.pop("ord")))   # norm(x, ord=1) is norm(x, 1)
+            return T.app("norm", *pos, *[T.app("kw:" + kk, self._as_term(vv)) for kk, vv in sorted(kw2.items())], real=True)
         if short == "sum" and isP and not full.startswith("numpy.linalg"):
             extra = [T.app("kw:" + kk, self._as_term(vv)) for kk, vv in sorted(kw.items())] + [self._as_term(x) for x in args[1:]]
             return self.lin_sum(a0, extra)
